@@ -637,9 +637,130 @@ func sortedAfter(w *World, p *packages.Package, d *ast.FuncDecl, blocks []*ast.B
 		})
 		return ok
 	}
+	_, _ = mentions, onlyLen
+	return sortedFrom(w, p, d, parent, idx, rs, obj, 0)
+}
+
+// sortedFrom: the first order-sensitive use of obj after statement idx of block parent is a
+// sort by a total order — or obj is returned and every static caller sorts the result first.
+func sortedFrom(w *World, p *packages.Package, d *ast.FuncDecl, parent *ast.BlockStmt, idx int, rs *ast.RangeStmt, obj types.Object, depth int) (bool, string) {
+	info := p.TypesInfo
+	mentions := func(n ast.Node) bool {
+		found := false
+		ast.Inspect(n, func(m ast.Node) bool {
+			if id, ok := m.(*ast.Ident); ok && info.ObjectOf(id) == obj {
+				found = true
+			}
+			return !found
+		})
+		return found
+	}
+	onlyLen := func(n ast.Node) bool {
+		ok := true
+		var stack []ast.Node
+		ast.Inspect(n, func(m ast.Node) bool {
+			if m == nil {
+				stack = stack[:len(stack)-1]
+				return true
+			}
+			stack = append(stack, m)
+			if id, isID := m.(*ast.Ident); isID && info.ObjectOf(id) == obj {
+				lenArg := false
+				if len(stack) >= 2 {
+					if call, isCall := stack[len(stack)-2].(*ast.CallExpr); isCall {
+						if fid, isF := call.Fun.(*ast.Ident); isF && fid.Name == "len" && len(call.Args) == 1 && call.Args[0] == ast.Expr(id) {
+							lenArg = true
+						}
+					}
+				}
+				if !lenArg {
+					ok = false
+				}
+			}
+			return true
+		})
+		return ok
+	}
 	for _, s := range parent.List[idx+1:] {
 		if !mentions(s) || onlyLen(s) {
 			continue
+		}
+		if rt, isRet := s.(*ast.ReturnStmt); isRet && depth < 2 {
+			// handed to the callers unsorted: each of them has to sort it before anything else
+			ri := -1
+			for i, res := range rt.Results {
+				if id, ok := ast.Unparen(res).(*ast.Ident); ok && info.ObjectOf(id) == obj {
+					ri = i
+				}
+			}
+			if ri < 0 {
+				return false, "returned inside an expression at " + w.pos(s.Pos())
+			}
+			fobj, _ := info.Defs[d.Name].(*types.Func)
+			if fobj == nil {
+				return false, "returned unsorted"
+			}
+			callers, good := 0, true
+			why := ""
+			w.eachFuncDecl(func(cp *packages.Package, cd *ast.FuncDecl) {
+				var blocks []*ast.BlockStmt
+				ast.Inspect(cd.Body, func(n ast.Node) bool {
+					if b, ok := n.(*ast.BlockStmt); ok {
+						blocks = append(blocks, b)
+					}
+					return true
+				})
+				for _, b := range blocks {
+					for si, st := range b.List {
+						as, ok := st.(*ast.AssignStmt)
+						if !ok || len(as.Rhs) != 1 {
+							continue
+						}
+						call, ok := ast.Unparen(as.Rhs[0]).(*ast.CallExpr)
+						if !ok {
+							continue
+						}
+						if cf, ok := typeutil.Callee(cp.TypesInfo, call).(*types.Func); !ok || cf != fobj {
+							continue
+						}
+						callers++
+						if ri >= len(as.Lhs) {
+							good, why = false, "result dropped"
+							continue
+						}
+						lid, ok := as.Lhs[ri].(*ast.Ident)
+						if !ok {
+							good, why = false, "result not bound to a variable in "+cd.Name.Name
+							continue
+						}
+						ok2, w2 := sortedFrom(w, cp, cd, b, si, rs, cp.TypesInfo.ObjectOf(lid), depth+1)
+						if !ok2 {
+							good, why = false, "in caller "+cd.Name.Name+": "+w2
+						} else {
+							why = w2
+						}
+					}
+				}
+			})
+			// calls that are not plain assignments
+			total := 0
+			w.eachFuncDecl(func(cp *packages.Package, cd *ast.FuncDecl) {
+				ast.Inspect(cd.Body, func(n ast.Node) bool {
+					if call, ok := n.(*ast.CallExpr); ok {
+						if cf, ok := typeutil.Callee(cp.TypesInfo, call).(*types.Func); ok && cf == fobj {
+							total++
+						}
+					}
+					return true
+				})
+			})
+			if callers == 0 || total != callers {
+				return false, "returned in map order and not every call binds the result to a variable that is sorted first"
+			}
+			if !good {
+				return false, "returned in map order; " + why
+			}
+			return true, "returned to the callers, each of which sorts it first (" + why + ")"
 		}
 		es, ok := s.(*ast.ExprStmt)
 		if !ok {
@@ -706,14 +827,28 @@ func comparatorTotal(w *World, p *packages.Package, rs *ast.RangeStmt, obj types
 		return false, "distinguishing field set of the map not derivable: " + how
 	}
 	read := map[string]bool{}
-	ast.Inspect(lit.Body, func(n ast.Node) bool {
-		if sel, ok := n.(*ast.SelectorExpr); ok {
-			if v, ok := info.ObjectOf(sel.Sel).(*types.Var); ok && v.IsField() {
-				read[v.Name()] = true
+	var collect func(pi *types.Info, body ast.Node, depth int)
+	collect = func(pi *types.Info, body ast.Node, depth int) {
+		ast.Inspect(body, func(n ast.Node) bool {
+			switch x := n.(type) {
+			case *ast.SelectorExpr:
+				if v, ok := pi.ObjectOf(x.Sel).(*types.Var); ok && v.IsField() {
+					read[v.Name()] = true
+				}
+			case *ast.CallExpr:
+				// a helper of the module that compares the two elements (compareSigTail(a, b))
+				if cf, ok := typeutil.Callee(pi, x).(*types.Func); ok && depth < 2 && cf.Pkg() != nil && inModule(cf.Pkg().Path()) {
+					w.eachFuncDecl(func(cp *packages.Package, cd *ast.FuncDecl) {
+						if cp.TypesInfo.Defs[cd.Name] == types.Object(cf) {
+							collect(cp.TypesInfo, cd.Body, depth+1)
+						}
+					})
+				}
 			}
-		}
-		return true
-	})
+			return true
+		})
+	}
+	collect(info, lit.Body, 0)
 	var missing []string
 	for _, f := range need {
 		if !read[f] {
